@@ -4,7 +4,7 @@
 cd /verif && unset SUPERREC2_REPO && PYTHONPATH=/verif /venv/bin/python - <<'PY'
 from harness import common
 common.setup_repo_path()
-for p in ("C11", "C12", "C15", "C17", "C18", "C20"):
+for p in ("C11", "C12", "C15", "C17", "C18", "C19", "C20"):
     common.translate(p)
     common.translator_tie(p)
 PY
